@@ -37,7 +37,7 @@ SPEC = {
     "C10": dict(workloads=[("c10", False, 0.6, []), ("c10", True, 0.4, [])], quick=560, thorough=8000, maxops=(40, 60),
                 relevant=("throw:",), need={"refused": 200},
                 rule="distinct sequences containing >= 1 refused public mutating call (snapshot equality judged around it)"),
-    "C11": dict(workloads=[("c11", False, 1.0, ["--lookups", "14"])], quick=420, thorough=8000, maxops=(40, 60),
+    "C11": dict(workloads=[("c11", False, 0.8, ["--lookups", "14"]), ("c11", False, 0.2, ["--lookups", "14", "--start", "@CORPUS@", "--maxops", "12"])], quick=420, thorough=8000, maxops=(40, 60),
                 relevant=("lookups", "declare_"), need={"c11_accesses": 20000},
                 rule="distinct sequences containing >= 1 batch of look-ups (each batch = 14 accesses over all container kinds) compared with the snapshot"),
 }
@@ -137,6 +137,12 @@ def run(prop, tier):
             RR.cnt["c01_roundtrips"] += sum(1 for c, l in RR.lines.get("RES", []) if " ok" in l)
             results.append(RR)
         viols = [v for R in results for v in R.viol]
+        if prop == "C08":
+            # "adding one point or channel adds it exactly once to every frame": a refused column call that leaves the column in some frames breaks it too
+            import re as _re
+            for v in list(viols):
+                if v["prop"] == "C10" and _re.match(r"changed_after_refusal/(channel_column|point_column|declare_point|declare_channel)/.*/frame", v["key"]):
+                    viols.append(dict(v, prop="C08", key="column/partly_added_by_refused_call/" + v["key"].split("/")[1]))
         cov, cnt = coverage_of(prop, results, spec)
         inconclusive = None
         scale = 1 if tier == "quick" else 4
